@@ -114,7 +114,7 @@ fn rep_class(rep: &str) -> String {
         };
         format!("flavour-{f}")
     } else if rep.starts_with("dict") {
-        "dict".into()
+        if rep.ends_with("nullvalue") { "dict-nullvalue".into() } else { "dict".into() }
     } else {
         rep.to_string()
     }
@@ -130,6 +130,9 @@ fn same(a: &ScalarValue, b: &ScalarValue) -> bool {
 }
 
 fn show(v: &ScalarValue) -> String {
+    if v.is_null() {
+        return format!("NULL::{}", v.data_type());
+    }
     let s = format!("{v:?}");
     if s.len() > 160 { format!("{}…", s.chars().take(160).collect::<String>()) } else { s }
 }
@@ -140,6 +143,9 @@ struct Chunk {
     args: Vec<ColumnarValue>,
     /// must this chunk succeed (all its rows succeed in `base`, same logical types)?
     must: bool,
+    /// for type-changing variants (flavours, dictionaries): the argument types of the variant.  A failure
+    /// of the batch is a violation only if every row evaluates successfully on its own *in these types*.
+    variant_types: Option<Vec<DataType>>,
 }
 
 struct Grid<'a> {
@@ -212,7 +218,21 @@ impl<'a> Grid<'a> {
 
     /// Evaluate one chunk of representation `rep`, compare with the reference.
     /// `fill`: rows without reference take this representation's value as reference.
-    fn eval_chunk(&mut self, rep: &str, ch: Chunk, n: usize, fill: bool, soft_fail: bool) {
+    /// Does every row of the chunk succeed on its own when its (plain, 1-row) arguments are cast to `types`?
+    fn rows_alone_succeed(&mut self, rows: &[usize], types: &[DataType]) -> bool {
+        for r in rows {
+            let args: Option<Vec<ColumnarValue>> = (0..types.len()).map(|a| cast_to(&self.col(a, &[*r]), &types[a]).map(ColumnarValue::Array)).collect();
+            let Some(args) = args else { return false };
+            self.stats.add("invocations", 1);
+            self.stats.add("invocations.variant-rowwise", 1);
+            if !matches!(invoke(self.udf, &args, 1, &self.cfg), Out::Ok(..)) {
+                return false;
+            }
+        }
+        true
+    }
+
+    fn eval_chunk(&mut self, rep: &str, ch: Chunk, n: usize, fill: bool) {
         self.stats.add("invocations", 1);
         self.stats.add(&format!("invocations.{}", rep_class(rep)), 1);
         match invoke(self.udf, &ch.args, n, &self.cfg) {
@@ -222,18 +242,26 @@ impl<'a> Grid<'a> {
                 self.push(rep, sym, row, txt);
             }
             Out::Fail(e) => {
-                if ch.must {
-                    if soft_fail {
-                        self.stats.add(&format!("variant_failed_on_good_rows.{}", rep_class(rep)), 1);
-                    }
+                let must = ch.must
+                    && match &ch.variant_types {
+                        None => true,
+                        Some(t) => {
+                            let ok = self.rows_alone_succeed(&ch.rows, t);
+                            if !ok {
+                                self.stats.add(&format!("variant_unsupported_by_implementation.{}", rep_class(rep)), 1);
+                            }
+                            ok
+                        }
+                    };
+                if must {
                     let row = ch.rows.first().copied();
                     let txt = format!(
-                        "{rep}: fails with `{}` on a batch of {} row(s) each of which succeeds on its own with plain arrays; first row {}",
+                        "{rep}: fails with `{}` on a batch of {} row(s) each of which succeeds on its own (with plain arrays, and in this representation's types); first row {}",
                         e.chars().take(300).collect::<String>(),
                         ch.rows.len(),
                         row.map(|r| self.row_text(r)).unwrap_or_default()
                     );
-                    self.push(rep, if soft_fail { "variant-fails-on-good-rows" } else { "fails-on-good-rows" }, row, txt);
+                    self.push(rep, "fails-on-good-rows", row, txt);
                 } else {
                     self.stats.add("chunk_failed_allowed", 1);
                 }
@@ -353,7 +381,7 @@ fn run_grid(udf: &ScalarUDF, plan: &Plan, vary: (usize, usize), opts: &Opts) -> 
     // ---- base: one 1-row batch per row, plain arrays (always evaluated: it is the reference)
     for r in 0..nrows {
         let args: Vec<ColumnarValue> = (0..nargs).map(|a| ColumnarValue::Array(g.col(a, &[r]))).collect();
-        g.eval_chunk("base", Chunk { rows: vec![r], args, must: false }, 1, true, false);
+        g.eval_chunk("base", Chunk { rows: vec![r], args, must: false, variant_types: None }, 1, true);
         g.base_ok[r] = g.reference[r].is_some();
     }
     let good: Vec<usize> = (0..nrows).filter(|r| g.base_ok[*r]).collect();
@@ -368,7 +396,7 @@ fn run_grid(udf: &ScalarUDF, plan: &Plan, vary: (usize, usize), opts: &Opts) -> 
         for r in 0..nrows {
             let Some(args) = (0..nargs).map(|a| g.scalar(a, g.rows[r][a]).map(ColumnarValue::Scalar)).collect::<Option<Vec<_>>>() else { continue };
             let must = g.base_ok[r];
-            g.eval_chunk(name, Chunk { rows: vec![r; n], args, must }, n, name == "const", false);
+            g.eval_chunk(name, Chunk { rows: vec![r; n], args, must, variant_types: None }, n, name == "const");
         }
     }
     let with_ref: Vec<usize> = (0..nrows).filter(|r| g.reference[*r].is_some()).collect();
@@ -380,12 +408,12 @@ fn run_grid(udf: &ScalarUDF, plan: &Plan, vary: (usize, usize), opts: &Opts) -> 
         // ---- batch
         if want("batch") {
             let args = cols.iter().cloned().map(ColumnarValue::Array).collect();
-            g.eval_chunk("batch", Chunk { rows: good.clone(), args, must: true }, n, false, false);
+            g.eval_chunk("batch", Chunk { rows: good.clone(), args, must: true, variant_types: None }, n, false);
         }
         if want("batch-full") && good.len() < nrows {
             let all: Vec<usize> = (0..nrows).collect();
             let args = (0..nargs).map(|a| ColumnarValue::Array(g.col(a, &all))).collect();
-            g.eval_chunk("batch-full", Chunk { rows: all, args, must: false }, nrows, false, false);
+            g.eval_chunk("batch-full", Chunk { rows: all, args, must: false, variant_types: None }, nrows, false);
         }
         // ---- sliced at offset 1: a poison / garbage row before and after
         if want("sliced") {
@@ -400,7 +428,7 @@ fn run_grid(udf: &ScalarUDF, plan: &Plan, vary: (usize, usize), opts: &Opts) -> 
                     ColumnarValue::Array(long.slice(1, n))
                 })
                 .collect();
-            g.eval_chunk("sliced", Chunk { rows: good.clone(), args, must: true }, n, false, false);
+            g.eval_chunk("sliced", Chunk { rows: good.clone(), args, must: true, variant_types: None }, n, false);
         }
         // ---- split in two
         let mut cuts: Vec<usize> = if opts.all_splits { (1..n).collect() } else { vec![1, n / 2] };
@@ -418,7 +446,7 @@ fn run_grid(udf: &ScalarUDF, plan: &Plan, vary: (usize, usize), opts: &Opts) -> 
             }
             for (lo, len) in [(0, k), (k, n - k)] {
                 let args = cols.iter().map(|c| ColumnarValue::Array(c.slice(lo, len))).collect();
-                g.eval_chunk(&name, Chunk { rows: good[lo..lo + len].to_vec(), args, must: true }, len, false, false);
+                g.eval_chunk(&name, Chunk { rows: good[lo..lo + len].to_vec(), args, must: true, variant_types: None }, len, false);
             }
         }
         // ---- flavours
@@ -466,7 +494,7 @@ fn run_grid(udf: &ScalarUDF, plan: &Plan, vary: (usize, usize), opts: &Opts) -> 
                 continue;
             };
             let args = arrs.into_iter().map(ColumnarValue::Array).collect();
-            g.eval_chunk(&name, Chunk { rows: good.clone(), args, must: true }, n, false, true);
+            g.eval_chunk(&name, Chunk { rows: good.clone(), args, must: true, variant_types: Some(co.clone()) }, n, false);
         }
         // ---- dictionary
         for k in 0..nargs {
@@ -475,7 +503,8 @@ fn run_grid(udf: &ScalarUDF, plan: &Plan, vary: (usize, usize), opts: &Opts) -> 
             }
             let dense = format!("dict:{k}:dense");
             let sparse = format!("dict:{k}:sparse");
-            if !want(&dense) && !want(&sparse) {
+            let nullvalue = format!("dict:{k}:nullvalue");
+            if !want(&dense) && !want(&sparse) && !want(&nullvalue) {
                 continue;
             }
             let dt = DataType::Dictionary(Box::new(DataType::Int32), Box::new(plan.types[k].clone()));
@@ -496,19 +525,25 @@ fn run_grid(udf: &ScalarUDF, plan: &Plan, vary: (usize, usize), opts: &Opts) -> 
                     let mut arrs = others.clone();
                     arrs[k] = d;
                     let args = arrs.into_iter().map(ColumnarValue::Array).collect();
-                    g.eval_chunk(&dense, Chunk { rows: good.clone(), args, must: true }, n, false, true);
+                    g.eval_chunk(&dense, Chunk { rows: good.clone(), args, must: true, variant_types: Some(co.clone()) }, n, false);
                 }
             }
-            // sparse: the whole menu as values (unused entries, NULL value), NULL rows alternately NULL key / key of the NULL value
-            if want(&sparse) {
+            // sparse: the whole menu as dictionary values (entries no row uses, in menu order), NULL rows = NULL keys;
+            // nullvalue: the same, NULL rows = keys of the NULL dictionary value
+            for (name, null_as_value) in [(&sparse, false), (&nullvalue, true)] {
+                if !want(name) {
+                    continue;
+                }
                 let keys: Vec<Option<i32>> = good
                     .iter()
-                    .enumerate()
-                    .map(|(p, r)| {
+                    .map(|r| {
                         let i = g.rows[*r][k];
-                        if plan.menus[k].is_null(i) && p % 2 == 0 { None } else { Some(i as i32) }
+                        if plan.menus[k].is_null(i) && !null_as_value { None } else { Some(i as i32) }
                     })
                     .collect();
+                if null_as_value && !good.iter().any(|r| plan.menus[k].is_null(g.rows[*r][k])) {
+                    continue;
+                }
                 let built = mc_core::catch(|| DictionaryArray::<Int32Type>::try_new(Int32Array::from(keys), plan.menus[k].clone()));
                 if let Ok(Ok(d)) = built {
                     let d: ArrayRef = Arc::new(d);
@@ -516,7 +551,7 @@ fn run_grid(udf: &ScalarUDF, plan: &Plan, vary: (usize, usize), opts: &Opts) -> 
                         let mut arrs = others.clone();
                         arrs[k] = d;
                         let args = arrs.into_iter().map(ColumnarValue::Array).collect();
-                        g.eval_chunk(&sparse, Chunk { rows: good.clone(), args, must: true }, n, false, true);
+                        g.eval_chunk(name, Chunk { rows: good.clone(), args, must: true, variant_types: Some(co.clone()) }, n, false);
                     }
                 }
             }
@@ -543,7 +578,7 @@ fn run_grid(udf: &ScalarUDF, plan: &Plan, vary: (usize, usize), opts: &Opts) -> 
                 };
                 let must = rs.iter().all(|r| g.base_ok[*r]);
                 let n = rs.len();
-                g.eval_chunk(&name, Chunk { rows: rs, args, must }, n, false, false);
+                g.eval_chunk(&name, Chunk { rows: rs, args, must, variant_types: None }, n, false);
             }
         }
         if nargs > 2 && want("scalar:fixed") {
@@ -555,7 +590,7 @@ fn run_grid(udf: &ScalarUDF, plan: &Plan, vary: (usize, usize), opts: &Opts) -> 
             };
             let must = with_ref.iter().all(|r| g.base_ok[*r]);
             let n = with_ref.len();
-            g.eval_chunk("scalar:fixed", Chunk { rows: with_ref.clone(), args, must }, n, false, false);
+            g.eval_chunk("scalar:fixed", Chunk { rows: with_ref.clone(), args, must, variant_types: None }, n, false);
         }
     }
 
@@ -829,7 +864,7 @@ fn explore(ctx: &Ctx) {
             "registries": regs, "type_lists_per_function": cap, "probe_alphabet": menu::probe_alphabet().iter().map(|t| t.to_string()).collect::<Vec<_>>(),
             "menu": "NULL, empty/zero, ASCII/typical, multibyte/negative, >12 bytes, NaN/inf/MIN/MAX; <= 3 probe-selected pool strings per string argument",
             "varied_arguments": "every pair (others fixed at default)", "splits": if ctx.thorough() { "every cut" } else { "cuts at 1 and n/2" },
-            "representations": ["base", "const", "const3", "batch", "batch-full", "sliced", "split@k", "scalar:i", "scalar:fixed", "flavour:k:T", "flavour:all:F", "dict:k:dense", "dict:k:sparse"],
+            "representations": ["base", "const", "const3", "batch", "batch-full", "sliced", "split@k", "scalar:i", "scalar:fixed", "flavour:k:T", "flavour:all:F", "dict:k:dense", "dict:k:sparse", "dict:k:nullvalue"],
         }),
     );
     ctx.set_extra("excluded_inspects_physical_type", json!(engine::EXCLUDED.iter().map(|(n, w)| format!("{n}: {w}")).collect::<Vec<_>>()));
@@ -850,7 +885,12 @@ fn explore(ctx: &Ctx) {
             if trace {
                 eprintln!("task {}:{} {:?}", reg, u.name(), t.iter().map(|x| x.to_string()).collect::<Vec<_>>());
             }
-            run_task(reg, u, *i, t, thorough, &|| ctx.out_of_time())
+            let t0 = std::time::Instant::now();
+            let o = run_task(reg, u, *i, t, thorough, &|| ctx.out_of_time());
+            if trace {
+                eprintln!("done {}:{} {:?} in {:?}", reg, u.name(), t.iter().map(|x| x.to_string()).collect::<Vec<_>>(), t0.elapsed());
+            }
+            o
         })
         .collect();
     let mut unfinished = 0u64;
